@@ -71,6 +71,9 @@ def classify(case):
             return l % 2 == 1 or any(b != 0 for b in data[s + 1:s + l:2])
         if any(not_wide(int(s), int(l)) for s, l in rep):
             return "C01:scan:wide-regexp-split-at-large-gap"
+    # the other remaining known finding: a chain piece with several possible ends before a bounded gap
+    if "chain-piece-variable-length-bounded-gap" in tags and sym == "missed":
+        return "C01:scan:chain-piece-variable-length-bounded-gap"
     for t in TAG_ORDER[:-1]:
         if t in tags:
             return f"C01:scan:{t}"
